@@ -284,6 +284,14 @@ func init() {
 		Variant{Name: "bounded wait: the hand-over select is left running in a goroutine", Property: "C02", File: shm,
 			Old: "\t\tdelivered := false\n\t\tfunc() {\n\t\t\tdefer func() {\n\t\t\t\tif panicErr := recover(); panicErr != nil {\n\t\t\t\t\tlogger.Warn(\"Failed to deliver messages to local shard owner (channel closed)\")\n\t\t\t\t}\n\t\t\t}()\n\t\t\tselect {\n\t\t\tcase ch <- *routedMsg:\n\t\t\t\tlogger.Debug(\"Delivered messages to local shard owner\")\n\t\t\t\tdelivered = true\n\t\t\tcase <-shutdownChan.Channel():\n\t\t\t\t// Shutdown signal received\n\t\t\t}\n\t\t}()\n", New: "\t\tdelivered := false\n\t\tdone := make(chan struct{})\n\t\tgo func() {\n\t\t\tdefer close(done)\n\t\t\tdefer func() {\n\t\t\t\tif panicErr := recover(); panicErr != nil {\n\t\t\t\t\tlogger.Warn(\"Failed to deliver messages to local shard owner (channel closed)\")\n\t\t\t\t}\n\t\t\t}()\n\t\t\tselect {\n\t\t\tcase ch <- *routedMsg:\n\t\t\t\tlogger.Debug(\"Delivered messages to local shard owner\")\n\t\t\t\tdelivered = true\n\t\t\tcase <-shutdownChan.Channel():\n\t\t\t\t// Shutdown signal received\n\t\t\t}\n\t\t}()\n\t\tselect {\n\t\tcase <-done:\n\t\tcase <-time.After(time.Second):\n\t\t\treturn false\n\t\t}\n", Expect: "O2.13", Contains: "hand-over select"},
 	)
+	addVariants(
+		Variant{Name: "terminated counter of the ack direction loses its direction label", Property: "C20", File: "proxy/admin_stream_transfer.go",
+			Old: "\t\t\tf.logger.Debug(\"targetStreamServer.Recv encountered EOF\", tag.Error(err))\n\t\t\tmetrics.AdminServiceStreamTerminatedCount.WithLabelValues(append(f.metricLabelValues, \"target\")...).Inc()\n", New: "\t\t\tf.logger.Debug(\"targetStreamServer.Recv encountered EOF\", tag.Error(err))\n\t\t\tmetrics.AdminServiceStreamTerminatedCount.WithLabelValues(f.metricLabelValues...).Inc()\n", Expect: "O20.12"},
+		Variant{Name: "terminated counter given one label value too many", Property: "C06", File: "proxy/admin_stream_transfer.go",
+			Old: "\t\t\tf.logger.Debug(\"sourceStreamClient.Recv encountered EOF\", tag.Error(err))\n\t\t\tmetrics.AdminServiceStreamTerminatedCount.WithLabelValues(append(f.metricLabelValues, \"source\")...).Inc()\n", New: "\t\t\tf.logger.Debug(\"sourceStreamClient.Recv encountered EOF\", tag.Error(err))\n\t\t\tmetrics.AdminServiceStreamTerminatedCount.WithLabelValues(append(f.metricLabelValues, \"source\", \"eof\")...).Inc()\n", Expect: "O6.16"},
+		Variant{Name: "label slice copied before the direction is appended", Property: "C20", File: "proxy/admin_stream_transfer.go", Benign: true,
+			Old: "\t\t\tf.logger.Debug(\"sourceStreamClient.Recv encountered EOF\", tag.Error(err))\n\t\t\tmetrics.AdminServiceStreamTerminatedCount.WithLabelValues(append(f.metricLabelValues, \"source\")...).Inc()\n", New: "\t\t\tf.logger.Debug(\"sourceStreamClient.Recv encountered EOF\", tag.Error(err))\n\t\t\tterminated := metrics.AdminServiceStreamTerminatedCount\n\t\t\tterminated.WithLabelValues(append(append([]string{}, f.metricLabelValues...), \"source\")...).Inc()\n"},
+	)
 	// ---- C06
 	ast := "proxy/admin_stream_transfer.go"
 	addVariants(
